@@ -110,12 +110,13 @@ namespace pika::thread_pool_bulk_detail {
                 template <typename Ts>
                 void do_work_chunk(Ts& ts, std::uint32_t const index) const
                 {
-                    auto const i_begin =
-                        static_cast<Shape>(index) * static_cast<Shape>(task_f->chunk_size);
-                    auto const i_end = (std::min)(
-                        (static_cast<Shape>(index) + 1) * static_cast<Shape>(task_f->chunk_size),
-                        task_f->n);
-                    for (auto i = i_begin; i < i_end; ++i)
+                    // Compute the range in 64 bits: index * chunk_size is always
+                    // smaller than n, but (index + 1) * chunk_size may not be
+                    // representable in Shape for the last chunk.
+                    auto const n = static_cast<std::uint64_t>(task_f->n);
+                    auto const i_begin = static_cast<std::uint64_t>(index) * task_f->chunk_size;
+                    auto const i_end = i_begin + (std::min)(task_f->chunk_size, n - i_begin);
+                    for (auto i = static_cast<Shape>(i_begin); i < static_cast<Shape>(i_end); ++i)
                     {
                         std::apply(pika::util::detail::bind_front(op_state->f, i), ts);
                     }
@@ -183,7 +184,7 @@ namespace pika::thread_pool_bulk_detail {
             {
                 operation_state* const op_state;
                 Shape const n;
-                std::uint32_t const chunk_size;
+                std::uint64_t const chunk_size;
                 std::uint32_t const worker_thread;
 
                 // Visit the values sent by the predecessor sender.
@@ -258,11 +259,14 @@ namespace pika::thread_pool_bulk_detail {
             // a total number of items n. Returns a power-of-2 chunk
             // size that produces at most 8 and at least 4 chunks per
             // worker thread.
-            static constexpr std::uint32_t get_chunk_size(
+            static constexpr std::uint64_t get_chunk_size(
                 std::uint32_t const num_threads, Shape const n)
             {
-                std::uint32_t chunk_size = 1;
-                while (chunk_size * num_threads * 8 < static_cast<std::uint32_t>(n))
+                // The computation is done in 64 bits: in 32 bits the product
+                // wraps around (and the loop does not terminate) for n > 2^31,
+                // and shapes wider than 32 bits would be truncated.
+                std::uint64_t chunk_size = 1;
+                while (chunk_size * num_threads * 8 < static_cast<std::uint64_t>(n))
                 {
                     chunk_size *= 2;
                 }
@@ -282,7 +286,7 @@ namespace pika::thread_pool_bulk_detail {
 
             // Spawn a task which will process a number of chunks. If
             // the queue contains no chunks no task will be spawned.
-            void do_work_task(Shape const n, std::uint32_t const chunk_size,
+            void do_work_task(Shape const n, std::uint64_t const chunk_size,
                 std::uint32_t const worker_thread) const
             {
                 task_function task_f{this->op_state, n, chunk_size, worker_thread};
@@ -325,7 +329,7 @@ namespace pika::thread_pool_bulk_detail {
             // from the predecessor sender. This thread participates in
             // the work and does not need a new task since it already
             // runs on a task.
-            void do_work_local(Shape n, std::uint32_t chunk_size, std::uint32_t worker_thread) const
+            void do_work_local(Shape n, std::uint64_t chunk_size, std::uint32_t worker_thread) const
             {
                 task_function{this->op_state, n, chunk_size, worker_thread}();
             }
@@ -345,7 +349,8 @@ namespace pika::thread_pool_bulk_detail {
                 // Calculate chunk size and number of chunks
                 auto const chunk_size =
                     get_chunk_size(r.op_state->num_worker_threads, r.op_state->shape);
-                auto const num_chunks = (r.op_state->shape + chunk_size - 1) / chunk_size;
+                auto const num_chunks = static_cast<std::uint32_t>(
+                    (static_cast<std::uint64_t>(r.op_state->shape) + chunk_size - 1) / chunk_size);
 
                 // Store sent values in the operation state
                 r.op_state->ts.template emplace<std::tuple<std::decay_t<Ts>...>>(
@@ -395,7 +400,7 @@ namespace pika::thread_pool_bulk_detail {
         PIKA_NO_UNIQUE_ADDRESS Shape shape;
         PIKA_NO_UNIQUE_ADDRESS F f;
         PIKA_NO_UNIQUE_ADDRESS Receiver receiver;
-        std::atomic<Shape> tasks_remaining{static_cast<Shape>(num_worker_threads)};
+        std::atomic<std::size_t> tasks_remaining{num_worker_threads};
         pika::util::detail::prepend_t<
             typename types::template value_types<std::tuple, pika::detail::variant>,
             pika::detail::monostate>
